@@ -1003,7 +1003,7 @@ func (s *Server) cmdFSET(msg *Message) (resp.Value, commandDetails, error) {
 		ofields := o.Fields()
 		for _, f := range fields {
 			prev := ofields.Get(f.Name())
-			if !prev.Value().Equals(f.Value()) {
+			if !prev.Value().Same(f.Value()) {
 				ofields = ofields.Set(f)
 				updateCount++
 			}
